@@ -95,7 +95,8 @@ class Tr:
             return f"(¬ {self.bexpr(e.operand, env, nz)})"
         for n in ast.walk(e):
             if isinstance(n, ast.BinOp) and isinstance(n.op, (ast.FloorDiv, ast.Mod)):
-                if not (isinstance(n.right, ast.Name) and n.right.id in nz):
+                nonzero_const = isinstance(n.right, ast.Constant) and isinstance(n.right.value, int) and not isinstance(n.right.value, bool) and n.right.value != 0
+                if not (nonzero_const or (isinstance(n.right, ast.Name) and n.right.id in nz)):
                     raise Untranslatable("division in a condition whose divisor is not guarded by an earlier `d > 0` / `d != 0` conjunct")
         nt = self._is_none_test(e)
         if nt is not None:
@@ -181,6 +182,8 @@ class Tr:
                 tg = None
                 if isinstance(n, ast.Assign) and isinstance(n.targets[0], ast.Name):
                     tg = n.targets[0].id
+                if isinstance(n, ast.Assign) and isinstance(n.targets[0], ast.Subscript) and isinstance(n.targets[0].value, ast.Name):
+                    tg = n.targets[0].value.id      # `xs[i] = v` inside the loop: the list is loop state too
                 if isinstance(n, (ast.AugAssign, ast.AnnAssign)) and isinstance(n.target, ast.Name):
                     tg = n.target.id
                 if tg and tg in env and tg not in assigned:
